@@ -274,11 +274,33 @@ impl CheckCtx {
         S: Strategy<Value = T> + Sync,
         F: Fn(&T) -> CaseOutcome + Sync,
     {
+        self.search_with(sub, || &strategy, cases, workers, budget, run)
+    }
+
+    /// Like `search`, but every worker builds its own strategy (for strategies that are not Sync,
+    /// e.g. boxed ones).
+    #[allow(clippy::too_many_arguments)]
+    pub fn search_with<T, S, M, F>(
+        &self,
+        sub: &str,
+        make_strategy: M,
+        cases: u32,
+        workers: usize,
+        budget: Option<Duration>,
+        run: F,
+    ) -> Option<Found>
+    where
+        T: Debug + Clone + Serialize + Send + 'static,
+        S: Strategy<Value = T>,
+        M: Fn() -> S + Sync,
+        F: Fn(&T) -> CaseOutcome + Sync,
+    {
         let workers = workers.max(1).min(cases.max(1) as usize);
         let stop = AtomicBool::new(false);
         let budget_hit = AtomicBool::new(false);
         let executed = AtomicU64::new(0);
         let found: Mutex<Option<(T, Violation)>> = Mutex::new(None);
+        let first_failing: Mutex<Option<(T, Violation)>> = Mutex::new(None);
         let t0 = Instant::now();
         let sub_hash = crate::evidence::fingerprint_str(sub);
 
@@ -292,7 +314,8 @@ impl CheckCtx {
                 let budget_hit = &budget_hit;
                 let executed = &executed;
                 let found = &found;
-                let strategy = &strategy;
+                let first_failing = &first_failing;
+                let make_strategy = &make_strategy;
                 let run = &run;
                 let seed = self
                     .seed
@@ -312,7 +335,8 @@ impl CheckCtx {
                     let mut runner = TestRunner::new(cfg);
                     let failed_here = AtomicBool::new(false);
                     let last_violation: Mutex<Option<Violation>> = Mutex::new(None);
-                    let res = runner.run(strategy, |case| {
+                    let strategy = make_strategy();
+                    let res = runner.run(&strategy, |case| {
                         let shrinking = failed_here.load(Ordering::Relaxed);
                         if !shrinking {
                             if stop.load(Ordering::Relaxed) {
@@ -346,6 +370,15 @@ impl CheckCtx {
                                         serde_json::to_value(&case).unwrap_or(Value::Null)
                                     });
                                 }
+                                // while shrinking, only a failure that shows twice in a row counts: this keeps the
+                                // minimal case away from timing-borderline variants that do not reproduce
+                                let viol = match viol {
+                                    Some(v) if shrinking => match catch_unwind(AssertUnwindSafe(|| run(&case))) {
+                                        Ok((_, Some(v2))) if v2.rule == v.rule => Some(v),
+                                        _ => None,
+                                    },
+                                    other => other,
+                                };
                                 match viol {
                                     Some(v) => {
                                         if self.known_open(&v.sig) {
@@ -361,6 +394,12 @@ impl CheckCtx {
                                                 }
                                             }
                                             return Ok(());
+                                        }
+                                        if !shrinking {
+                                            let mut g = first_failing.lock().unwrap();
+                                            if g.is_none() {
+                                                *g = Some((case.clone(), v.clone()));
+                                            }
                                         }
                                         failed_here.store(true, Ordering::Relaxed);
                                         stop.store(true, Ordering::Relaxed);
@@ -389,11 +428,17 @@ impl CheckCtx {
                         self.infra_error(format!("proptest aborted in {sub}: {r}"));
                     }
                 };
+                let infra = &self.infra;
+                let guarded = move || {
+                    if let Err(p) = catch_unwind(AssertUnwindSafe(body)) {
+                        infra.lock().unwrap().push(format!("worker panicked outside a case: {}", panic_msg(&p)));
+                    }
+                };
                 if workers == 1 {
                     // stay on the calling thread (C19 needs a single-threaded process)
-                    body();
+                    guarded();
                 } else {
-                    scope.spawn(body);
+                    scope.spawn(guarded);
                 }
             }
         });
@@ -415,13 +460,29 @@ impl CheckCtx {
             ));
         }
 
-        let (minimal, v) = found.into_inner().unwrap()?;
+        let (mut minimal, mut v) = found.into_inner().unwrap()?;
         // confirm twice more; a failure that does not reproduce is an infrastructure problem
-        let mut confirmed = 0;
-        for _ in 0..2 {
-            if let Ok((_, Some(v2))) = catch_unwind(AssertUnwindSafe(|| run(&minimal))) {
-                if v2.rule == v.rule {
-                    confirmed += 1;
+        let confirm = |c: &T, v: &Violation| -> u32 {
+            let mut n = 0;
+            for _ in 0..2 {
+                if let Ok((_, Some(v2))) = catch_unwind(AssertUnwindSafe(|| run(c))) {
+                    if v2.rule == v.rule {
+                        n += 1;
+                    }
+                }
+            }
+            n
+        };
+        let mut confirmed = confirm(&minimal, &v);
+        if confirmed < 2 {
+            // the shrunk case sits on a timing border; fall back to the case that failed first
+            if let Some((orig, ov)) = first_failing.into_inner().unwrap() {
+                let c2 = confirm(&orig, &ov);
+                if c2 == 2 {
+                    self.col.note(format!("{sub}: shrunk case did not reproduce; reporting the unshrunk failing case"));
+                    minimal = orig;
+                    v = ov;
+                    confirmed = 2;
                 }
             }
         }
